@@ -13,10 +13,10 @@ pub fn prop() -> Prop {
     Prop {
         id: "C13",
         level: "model_checking",
-        rule: "(a) every alias of every function against the canonical name on every documented example and on every argument tuple (arity <=3) over 6 atoms of all types; (b) 48 expressions (a third reading :v, @m, a selected name or ^ after --split-by) as --select (first and later), --filter, --sort-by (both directions), --group-by, --split-by, --set macro and --set variable, the late positions also behind another --select over all sequences of <=3 (thorough <=4) values over 5 records; (c) 40 expressions in 14 spellings (separators blank, comma, comma-blank, two blanks, tab, newline; padding before the closing parenthesis; leading-dot sugar; a comma directly after a variable, macro, key, number, string) (d) --regular-expression-cache-size in {0,1,2,64} x all sequences of <=2 (thorough <=3) (subject, pattern) pairs over 4 subjects x 6 patterns and of <=4 (thorough <=5) over a 12-pair core (one invalid pattern; two pairs whose pattern+subject texts glue to the same string) through match and extract_regex_group; non-trivial = the compared forms differ textually and the value is not nothing; distinct by construction",
+        rule: "(a) every alias of every function against the canonical name on every documented example and on every argument tuple (arity <=3) over 6 atoms of all types; (b) 48 expressions (a third reading :v, @m, a selected name or ^ after --split-by) as --select (first and later), --filter, --sort-by (both directions), --group-by, --split-by, --set macro and --set variable, the late positions also behind another --select over all sequences of <=3 (thorough <=4) values over 5 records; (c) 40 expressions in 14 spellings (separators blank, comma, comma-blank, two blanks, tab, newline; padding before the closing parenthesis; leading-dot sugar; a comma directly after a variable, macro, key, number, string) (d) --regular-expression-cache-size in {0,1,2,64} x all sequences of <=2 (thorough <=3) (subject, pattern) pairs over 4 subjects x 6 patterns and of <=4 (thorough <=5) over a 12-pair core (one invalid pattern; two pairs whose pattern+subject texts glue to the same string) through match and extract_regex_group, and sequences with 0/1/2/7 more distinct patterns than a cache of 2/3/16/64 holds, each revisited; non-trivial = the compared forms differ textually and the value is not nothing; distinct by construction",
         explanation: "differential inside the implementation (same run, several selections; or the rows kept / ordered / grouped / produced versus the values the same expression has as a selection) and, for the regex cache, against the regex crate called directly",
         assumptions: COMMON_ASSUMPTIONS.to_vec(),
-        guards: vec!["alias-with-value", "filter-kept-and-dropped", "sort-reordered", "group-two-keys", "split-produced-rows", "comma-after-variable", "dot-sugar", "cache-eviction", "invalid-pattern", "macro-position", "variable-position"],
+        guards: vec!["more-patterns-than-the-cache-holds", "alias-with-value", "filter-kept-and-dropped", "sort-reordered", "group-two-keys", "split-produced-rows", "comma-after-variable", "dot-sugar", "cache-eviction", "invalid-pattern", "macro-position", "variable-position"],
         budget_s: (100, 1800),
         single_worker: false,
         run,
@@ -513,10 +513,61 @@ fn cache_part(ctx: &mut Ctx) {
     }
 }
 
+/// more distinct patterns than the cache holds, then the early ones again (eviction at the size limit, not at size 1)
+fn cache_threshold_part(ctx: &mut Ctx) {
+    for size in [2usize, 3, 16, 64] {
+        for extra in [0usize, 1, 2, 7] {
+            if !ctx.mine() {
+                continue;
+            }
+            let n = size + extra;
+            // pattern i matches exactly the subjects that hold the digit string of i between two x
+            let mut order: Vec<usize> = (0..n).collect();
+            order.extend(0..n);
+            order.extend((0..n).rev());
+            let mut input = String::new();
+            let mut expected: Vec<V> = Vec::new();
+            for (step, i) in order.iter().enumerate() {
+                let subject = format!("x{}x", (i + step) % n);
+                let pattern = format!("x({i})x");
+                input.push_str(&format!("{{\"s\":\"{subject}\",\"p\":\"{pattern}\"}}\n"));
+                let re = regex::Regex::new(&pattern).unwrap();
+                let mut m: Vec<(String, V)> = vec![("m".into(), V::Bool(re.is_match(&subject)))];
+                if let Some(g) = re.captures(&subject).and_then(|c| c.get(1)) {
+                    m.push(("g".into(), V::s(g.as_str())));
+                }
+                expected.push(V::Obj(m));
+            }
+            let case = Case::owned(
+                vec![format!("--regular-expression-cache-size={size}"), "--select=(match .s .p)=m".into(), "--select=(extract_regex_group .s .p 1)=g".into()],
+                input.into_bytes(),
+            );
+            let obs = ctx.run(&case);
+            ctx.case_done();
+            ctx.trace_validated();
+            ctx.nontrivial();
+            ctx.guard("more-patterns-than-the-cache-holds");
+            let rows = json::parse_rows(&obs.stdout, b"\n").unwrap_or_default();
+            if !obs.res.is_ok() || rows != expected {
+                let first = rows.iter().zip(expected.iter()).position(|(a, b)| a != b).unwrap_or(rows.len().min(expected.len()));
+                ctx.violation(
+                    "regex-result-depends-on-the-cache",
+                    &format!("cache-size {size} with {n} distinct patterns"),
+                    &[case.clone()],
+                    format!("row {first} = {}", expected.get(first).map(json::to_text).unwrap_or_default()),
+                    format!("row {first} = {}", rows.get(first).map(json::to_text).unwrap_or_default()),
+                );
+            }
+        }
+    }
+    ctx.level_done("d:more-distinct-patterns-than-the-cache-holds(sizes-2,3,16,64)");
+}
+
 fn run(ctx: &mut Ctx) {
     alias_part(ctx);
     position_part(ctx);
     spelling_part(ctx);
     cache_part(ctx);
+    cache_threshold_part(ctx);
     let _ = Tier::Quick;
 }
